@@ -92,6 +92,7 @@ def _check_main(run, P):
     _alias(run, "C12.move", "C03.release", lambda: c12._move(run, P))
     _alias(run, "C12.alloc", "C03.release", lambda: c12._alloc(run, P))
     _alias(run, "C12.lastuse", "C03.release", lambda: c12._lastuse(run, P))
+    run.do(c12.reachable_visitors, run, P, "C03.release")
     from . import c09, c14
     _alias(run, "C09.total", "C03.infer", lambda: c09._total(run, P))
     _alias(run, "C09.operands", "C03.infer", lambda: c09._operands(run, P))
@@ -124,6 +125,9 @@ def _check_main(run, P):
     for r in ("C14.progress", "C14.fixpoint"):
         del run.rule_docs[r]
         del run.minimum[r]
+    run.rule("C03.norm", "norm_2 is the root of the sum of squares of all entries in the "
+             "interpreter's built-in as in the generated Fortran", minimum=2)
+    run.do(_norm, run, P)
     run.do(_numbers, run, P)
     run.do(_specialisations, run, P)
     _alias(run, "C14.sweeps", "C03.infer", lambda: c14._sweeps(run, P))
@@ -151,6 +155,7 @@ def _guard(run, P):
     # the lowering the Fortran generator starts from (shared with C05)
     from . import c05
     run.do(c05.lowering_table, run, P, "C03.guard")
+    c05.simplifier_clauses(run, P, "C03.guard")
     run.do(_templates, run, P)
 
 
@@ -513,6 +518,38 @@ def _loop(run, P):
     run.ob("C03.loop", lw, lw.node, ok,
            construct="walker passes (loop_var_name, lbound, ubound)",
            why="argument order")
+
+
+def _norm(run, P):
+    """The Fortran generator adds up abs(entry)**2 over every entry of the value, whatever
+    its rank; numpy's norm(x, 2) is that only for one-dimensional x."""
+    f = P.func("dagrt.builtins_python.builtin_norm_2")
+    x = f.arg(0)
+    calls = [c for c in ast.walk(f.node) if isinstance(c, ast.Call)
+             and (dotted(c.func) or "").endswith("linalg.norm")]
+    if not calls:
+        raise AnalysisError("builtin_norm_2: no linalg.norm call; how the norm is computed is "
+                            "not recognised")
+    for c in calls:
+        a = c.args[0] if c.args else None
+        flat = False
+        if isinstance(a, ast.Call):
+            d = dotted(a.func) or ""
+            if d.split(".")[-1] in ("ravel", "flatten") and (
+                    (a.args and dotted(a.args[0]) == x) or dotted(getattr(a.func, "value", None)) == x):
+                flat = True
+            if d == f"{x}.reshape" and len(a.args) == 1 and norm(a.args[0]) in ("-1", "(-1,)"):
+                flat = True
+        run.ob("C03.norm", f, c, flat,
+               construct=f"builtin_norm_2: {norm(c)} is taken of the flattened value",
+               why="for a user type of rank two numpy's norm(x, 2) is the spectral norm (and "
+                   "an error for rank three and up), the generated Fortran computes the "
+                   "root of the sum of squares of all entries")
+    g = P.func("dagrt.codegen.fortran.Norm2Computer.visit_BuiltinType")
+    strs = [n.value for n in ast.walk(g.node) if isinstance(n, ast.Constant) and isinstance(n.value, str)]
+    run.ob("C03.norm", g, g.node, any("abs({expr})**2" in s_.replace(" ", "") for s_ in strs),
+           construct="Norm2Computer adds abs(entry)**2 for every entry",
+           why="the reference the interpreter's built-in has to agree with")
 
 
 def _handlers(run, P):
